@@ -5,7 +5,7 @@ import sys, json, glob
 pid=sys.argv[1]
 props={json.loads(l)['id']: json.loads(l) for l in open('/verif/properties.jsonl') if l.strip()}
 P=props[pid]
-prop='Property %s: %s\n\nStatement: %s\n\nQuantified over: %s\n' % (pid, P['title'], P['statement'], P.get('quantifier') or '')
+prop='Property %s: %s\n\nStatement: %s\n\nQuantified over: %s\n' % (pid, P['title'], P['statement'], (P.get('quantifier') or {}).get('text', ''))
 prev=[]
 for p in sorted(glob.glob('/verif/seeded/%s-*/meta.json'%pid)):
     m=json.load(open(p)); prev.append('- '+m.get('what','')[:400])
